@@ -49,6 +49,7 @@ pub fn classes(s: &CaseStats) -> Vec<String> {
     add(s.nested_bucket_delete, "nested bucket delete");
     add(s.bucket_deletes > 0, "bucket delete");
     add(s.reopen_mid, "reopen mid-history");
+    add(s.reader_dance, "short-lived reader around every writer");
     add(s.rollback_then_commit, "rollback then commit");
     add(s.growth, "file growth");
     add(s.split, "split");
